@@ -334,6 +334,25 @@ def rule_part(ctx):
     na = srv.methods['_new_node_allocators']
     ctx.ob('C16.part', f'{na.fq}', '_node_alloc_class(self.client_id, self.options.initial_node_id)' in full(na.node).replace('\n', ''),
            'node ids are allocated for this client id', na.node, mod)
+    # the number of partitions is known before the partitions are cut: wherever the server's reply sets the number of logins
+    # and the client id, the count is stored before the call that rebuilds the allocators (they read it through max_logins)
+    sw = ctx.repo.cls('sc3.synth._serverstatus:ServerStatusWatcher')
+    k = 0
+    for mname, f in sorted(sw.methods.items()):
+        ss = [x for x in walk_local_ordered(f.node) if isinstance(x, ast.stmt)]
+        w = [i for i, x in enumerate(ss) if isinstance(x, ast.Assign) and any(U.is_self_attr(t, '_max_logins') for t in x.targets)
+             and not (isinstance(x.value, ast.Constant) and x.value.value is None)]
+        c = [i for i, x in enumerate(ss) if isinstance(x, ast.Expr) and isinstance(x.value, ast.Call)
+             and norm(x.value.func) in ('self.server._set_client_id', 'self.server._new_allocators')]
+        if w and c:
+            k += 1
+            ctx.ob('C16.part', f'{f.fq}:logins-before-allocators', max(w) < min(c),
+                   f'{mname} rebuilds the allocators (statement {min(c)}) before it stores the number of logins reported by the server '
+                   f'(statement {max(w)}): the partitions are cut with the stale local guess and belong to other clients', f.node, sw.module)
+    ctx.require(k >= 1, 'C16.part', 'no function sets both the login count and the client id')
+    mx = sw.methods['max_logins']
+    ctx.ob('C16.part', f'{mx.fq}', full(mx.node).endswith('return self._max_logins or self.server.options.max_logins'),
+           'the partition count is the server-reported number of logins, else the local option', mx.node, sw.module)
     init = ctx.repo.func('sc3.synth._engine:ContiguousBlockAllocator.__init__')
     src = full(init.node)
     ok = 'shifted_pos = pos + addr_offset' in src and 'self._array[pos] = ContiguousBlock(shifted_pos, size - pos)' in src and \
@@ -349,6 +368,9 @@ def run(ctx):
 
 
 MUTANTS = [
+    dict(rule='C16.part', name='login count stored after the allocators are rebuilt (seed C16-c)', file='sc3/synth/_serverstatus.py',
+         old="        if not self.server._in_process and new_max_logins is not None:\n            self._max_logins = new_max_logins\n        _logger.info(\n            f\"'{self.server.name}': setting client_id to {new_client_id}\")\n        self.server._set_client_id(new_client_id)",
+         new="        _logger.info(\n            f\"'{self.server.name}': setting client_id to {new_client_id}\")\n        self.server._set_client_id(new_client_id)\n        if not self.server._in_process and new_max_logins is not None:\n            self._max_logins = new_max_logins"),
     dict(rule='C16.node', name='(fix reverted) num_ids is half the id window', file='sc3/synth/_engine.py',
          old="        self.num_ids = 0x04000000  # 2 ** 26, the id window of a user (see mask).", new="        self.num_ids = (2 ** 32 // 2 - 1) // 64"),
     dict(rule='C16.xlate', name='_find_previous forgets the offset', file='sc3/synth/_engine.py',
